@@ -1,5 +1,6 @@
 SPECIFICATION Spec
 CONSTANTS Design = "pinned"
           MaxUses = 4
+          BackRef = FALSE
 INVARIANTS UsedLikeFresh
 CHECK_DEADLOCK FALSE
